@@ -7,11 +7,11 @@
 //! (3) totality on arbitrary/mutated bytes: no panic; Ok(img) ⇒ pixel count =
 //! w·h and dims = the header's (independent header reader).
 
-use super::iofault::{scratch_path, Chunky};
+use super::iofault::{scratch_path, Chunky, ChunkyWriter};
 use super::mutate::{mutate, show};
 use crate::{catch, Cfg, Hasher, Json, Report, Rng};
 use re::math::color::{rgb, Color3};
-use re::util::buf::Buf2;
+use re::util::buf::{Buf2, MutSlice2, Slice2};
 use re::util::pnm::{load_pnm, parse_pnm, read_pnm, save_ppm, write_ppm};
 
 type Img = (u32, u32, Vec<[u8; 3]>);
@@ -55,6 +55,15 @@ fn decode_both(rep: &mut Report, bytes: &[u8], what: &str) -> Option<Result<Img,
             None
         }
         (Ok(a), Ok(b), Ok(c)) => {
+            // which error is reported may legitimately differ between the
+            // iterator and the reader entry points: only Ok payloads and the
+            // fact of an error are compared
+            let same = |x: &Result<Img, String>, y: &Result<Img, String>| match (x, y) {
+                (Ok(p), Ok(q)) => p == q,
+                (Err(_), Err(_)) => true,
+                _ => false,
+            };
+            let (b, c) = (if same(&a, &b) { a.clone() } else { b }, if same(&a, &c) { a.clone() } else { c });
             if a != b {
                 rep.violation("pnm.parse_vs_read_differ", format!("parse_pnm and read_pnm disagree: {:?} vs {:?}", a.as_ref().map(|x| (x.0, x.1)), b.as_ref().map(|x| (x.0, x.1))), cj());
                 return None;
@@ -92,23 +101,62 @@ fn gen_pixels(rng: &mut Rng, n: usize) -> Vec<[u8; 3]> {
         .collect()
 }
 
+/// Independent reader of a binary P6 stream: (w, h, maxval, raster).
+fn ref_p6(b: &[u8]) -> Option<(u64, u64, u64, &[u8])> {
+    if b.len() < 2 || &b[..2] != b"P6" {
+        return None;
+    }
+    let mut i = 2;
+    let mut nums = [0u64; 3];
+    for n in nums.iter_mut() {
+        let s = i;
+        while i < b.len() && b[i].is_ascii_whitespace() {
+            i += 1;
+        }
+        if i == s {
+            return None;
+        }
+        let d = i;
+        while i < b.len() && b[i].is_ascii_digit() {
+            i += 1;
+        }
+        *n = std::str::from_utf8(&b[d..i]).ok()?.parse().ok()?;
+    }
+    if i >= b.len() || !b[i].is_ascii_whitespace() {
+        return None;
+    }
+    Some((nums[0], nums[1], nums[2], &b[i + 1..]))
+}
+
 fn roundtrip_case(rng: &mut Rng, rep: &mut Report, idx: u64) {
     let (w, h) = (rng.below(49) as u32, rng.below(49) as u32);
-    // zero-extent images now and then
+    // zero-extent images now and then; and, one case in a hundred, images
+    // whose encoding crosses the 8 KiB buffers of BufWriter/BufReader
+    let big = idx % 100 == 37;
     let (w, h) = match rng.below(12) {
+        _ if big => match rng.below(3) {
+            0 => (1 + rng.below(3) as u32, 1 + rng.below(4096) as u32),
+            1 => (1 + rng.below(4096) as u32, 1 + rng.below(3) as u32),
+            _ => (200 + rng.below(200) as u32, 100 + rng.below(200) as u32),
+        },
         0 => (0, h),
         1 => (w, 0),
         _ => (w, h),
     };
-    let strided = rng.chance(1, 2);
+    if big {
+        rep.count("roundtrip.larger_than_io_buffers");
+    }
+    // how the image is handed to the writer
+    let form = rng.below(7);
+    let strided = matches!(form, 1 | 3 | 5);
     let (ox, oy, pr, pb) = if strided { (rng.below(4) as u32, rng.below(4) as u32, rng.below(4) as u32, rng.below(4) as u32) } else { (0, 0, 0, 0) };
     let (pw, ph) = (ox + w + pr, oy + h + pb);
     let px = gen_pixels(rng, (pw * ph) as usize);
     let parent = Buf2::new_from((pw, ph), px.iter().map(|c| rgb(c[0], c[1], c[2])));
     let expect: Vec<[u8; 3]> = (0..h).flat_map(|y| (0..w).map(move |x| (x, y))).map(|(x, y)| px[((oy + y) * pw + ox + x) as usize]).collect();
     let mut hs = Hasher::new();
-    hs.u64(w as u64).u64(h as u64).u64(ox as u64).u64(oy as u64).u64(pw as u64);
-    for c in &expect {
+    hs.u64(w as u64).u64(h as u64).u64(ox as u64).u64(oy as u64).u64(pw as u64).u64(form);
+    for c in expect.iter().take(64) {
         hs.bytes(c);
     }
     rep.case(hs.get(), w > 0 && h > 0);
@@ -116,9 +164,32 @@ fn roundtrip_case(rng: &mut Rng, rep: &mut Report, idx: u64) {
     if w == 0 || h == 0 {
         rep.count("roundtrip.zero_width_or_height");
     }
-    let cj = || Json::obj().set("image", format!("{w}x{h}")).set("view", if strided { format!("window at ({ox},{oy}) of a {pw}x{ph} buffer") } else { "owned".into() }).set("first_pixels", format!("{:?}", &expect[..expect.len().min(4)]));
+    let form_name = ["&Buf2", "Buf2::slice", "Buf2 by value", "MutSlice2 (slice_mut)", "Slice2::new with stride and surplus tail", "slice of a slice", "as_slice2()"][form as usize];
+    rep.count(&format!("roundtrip.form.{form_name}"));
+    let cj = || Json::obj().set("image", format!("{w}x{h}")).set("view", if strided { format!("window at ({ox},{oy}) of a {pw}x{ph} buffer") } else { "owned".into() }).set("passed_as", form_name).set("first_pixels", format!("{:?}", &expect[..expect.len().min(4)]));
+    // Slice2::new form: own backing data with a wide stride and a tail
+    let stride4 = w + 3;
+    let data4: Vec<Color3> = {
+        let len = if w == 0 || h == 0 { 2 } else { ((h - 1) * stride4 + w + 2) as usize };
+        (0..len as u32).map(|i| if i % stride4 < w && i / stride4 < h { let c = expect[((i / stride4) * w + i % stride4) as usize]; rgb(c[0], c[1], c[2]) } else { rgb(9, 9, 9) }).collect()
+    };
+    let write_to = |out: &mut dyn std::io::Write| -> std::io::Result<()> {
+        match form {
+            0 => write_ppm(out, &parent),
+            1 => write_ppm(out, parent.slice((ox..ox + w, oy..oy + h))),
+            2 => write_ppm(out, Buf2::new_from((w, h), expect.iter().map(|c| rgb(c[0], c[1], c[2])))),
+            3 => {
+                let mut p2 = Buf2::new_from((pw, ph), px.iter().map(|c| rgb(c[0], c[1], c[2])));
+                let v: MutSlice2<Color3> = p2.slice_mut((ox..ox + w, oy..oy + h));
+                write_ppm(out, v)
+            }
+            4 => write_ppm(out, Slice2::new((w, h), stride4, &data4[..])),
+            5 => write_ppm(out, parent.slice((ox.., oy..)).slice((0..w, 0..h))),
+            _ => write_ppm(out, parent.as_slice2()),
+        }
+    };
     let mut out: Vec<u8> = vec![];
-    let wr = catch(|| if strided { write_ppm(&mut out, parent.slice((ox..ox + w, oy..oy + h))) } else { write_ppm(&mut out, &parent) });
+    let wr = catch(|| write_to(&mut out));
     match wr {
         Err(m) => {
             rep.violation("pnm.write_panicked", format!("write_ppm panicked: {m}"), cj());
@@ -130,18 +201,65 @@ fn roundtrip_case(rng: &mut Rng, rep: &mut Report, idx: u64) {
         }
         Ok(Ok(())) => {}
     }
+    // the same through a writer that takes 1..7 bytes per call and reports
+    // EINTR now and then: the bytes must be the same
+    if idx % 4 == 1 {
+        let mut cw = ChunkyWriter::new(hs.get());
+        let r = catch(|| write_to(&mut cw));
+        rep.add("writer_faults.short_writes", cw.writes - cw.interrupts);
+        rep.add("writer_faults.injected_eintr", cw.interrupts);
+        match r {
+            Ok(Ok(())) if cw.out == out => {}
+            Ok(Ok(())) => {
+                rep.violation("pnm.roundtrip_pixels", format!("write_ppm through a writer taking short writes produced {} bytes, {} through a Vec", cw.out.len(), out.len()), cj());
+                return;
+            }
+            Ok(Err(e)) => {
+                rep.violation("pnm.write_failed", format!("write_ppm failed on a writer that only ever reports short writes and EINTR: {e}"), cj());
+                return;
+            }
+            Err(m) => {
+                rep.violation("pnm.write_panicked", format!("write_ppm panicked on a short-write writer: {m}"), cj());
+                return;
+            }
+        }
+    }
+    // what was written, read by an independent P6 reader (the library's own
+    // decoder ignores maxval, so a wrong one would still round-trip)
+    match ref_p6(&out) {
+        Some((rw, rh, max, raster)) => {
+            let flat: Vec<u8> = expect.iter().flatten().copied().collect();
+            if (rw, rh) != (w as u64, h as u64) || max != 255 || raster != &flat[..] {
+                rep.violation("pnm.encoded_stream_wrong", format!("write_ppm's output is not the P6 encoding of the image: header says {rw}x{rh} maxval {max}, raster {} bytes (expected {}x{}, 255, {} bytes), first difference at {:?}", raster.len(), w, h, flat.len(), raster.iter().zip(&flat).position(|(a, b)| a != b)), cj().set("encoded_head", show(&out[..out.len().min(40)])));
+                return;
+            }
+            rep.count("roundtrip.encoded_stream_checked_by_reference_reader");
+        }
+        None => {
+            rep.violation("pnm.encoded_stream_wrong", "write_ppm's output is not a P6 stream (magic, three numbers, one whitespace byte, raster)".into(), cj().set("encoded_head", show(&out[..out.len().min(40)])));
+            return;
+        }
+    }
+    let strided = pw != w || ph != h; // the file round trip below writes the same window
     if idx < 2 {
         rep.sample(|| cj().set("encoded_head", show(&out[..out.len().min(40)])));
     }
     // one case in 16 also goes through the file system: save_ppm / load_pnm
-    if idx % 16 == 0 {
+    if idx % 16 == 0 || big {
         let path = scratch_path("rt.ppm");
         let sv = catch(|| if strided { save_ppm(&path, parent.slice((ox..ox + w, oy..oy + h))) } else { save_ppm(&path, &parent) });
         match sv {
             Err(m) => rep.violation("pnm.write_panicked", format!("save_ppm panicked: {m}"), cj()),
             Ok(Err(e)) => rep.count(&format!("file_roundtrip.environment_error({})", e.kind())),
             Ok(Ok(())) => {
-                let on_disk = std::fs::read(&path).unwrap_or_default();
+                let on_disk = match std::fs::read(&path) {
+                    Ok(d) => d,
+                    Err(e) => {
+                        let _ = std::fs::remove_file(&path);
+                        rep.count(&format!("file_roundtrip.environment_error({})", e.kind()));
+                        return;
+                    }
+                };
                 let ld = catch(|| load_pnm(&path).map(|b| (b.width(), b.height(), b.data().iter().map(|c| c.0).collect::<Vec<_>>())).map_err(|e| format!("{e:?}")));
                 let _ = std::fs::remove_file(&path);
                 if on_disk != out {
@@ -187,16 +305,21 @@ fn gap(rng: &mut Rng, out: &mut Vec<u8>, allow_comment: bool) {
         // u8::is_ascii_whitespace: space, tab, LF, FF, CR
         out.push(rng.pick(b" \n\t\r  \n\x0c"));
     }
-    if allow_comment && rng.chance(1, 3) {
+    // up to three whitespace-preceded comments in one gap; any byte except
+    // the line terminators may appear in a comment
+    let mut k = if allow_comment { [0usize, 0, 0, 1, 1, 2, 3][rng.usize(7)] } else { 0 };
+    while k > 0 {
+        k -= 1;
         out.push(b'#');
         let len = rng.below(12);
         for _ in 0..len {
-            out.push(rng.pick(b"abc 123#P6\t"));
+            let c = if rng.chance(1, 4) { rng.u64() as u8 } else { rng.pick(b"abc 123#P6\t") };
+            out.push(if c == b'\n' || c == b'\r' { b'.' } else { c });
         }
         out.push(b'\n');
         let m = rng.below(3);
         for _ in 0..m {
-            out.push(rng.pick(b" \n\t"));
+            out.push(rng.pick(b" \n\t\x0c"));
         }
     }
 }
@@ -250,7 +373,7 @@ fn equivalence_case(rng: &mut Rng, rep: &mut Report) {
     let gray: Vec<u8> = (0..n)
         .map(|_| {
             let r = rng.u64() as u8;
-            rng.pick(&[r, b' ', b'#', b'\n', b'7', 0, 255])
+            rng.pick(&[r, b' ', b'#', b'\n', b'7', 0, 255, b'\t', b'\r', 0x0c, 0x0b])
         })
         .collect();
     let rgbs = gen_pixels(rng, n);
@@ -311,6 +434,10 @@ fn read_header(b: &[u8]) -> Option<((u64, u64), bool)> {
                     plain = false;
                 }
                 while i < b.len() && b[i] != b'\n' {
+                    // a decoder may also end comments at CR (Netpbm does)
+                    if b[i] == b'\r' {
+                        plain = false;
+                    }
                     i += 1;
                 }
             } else {
@@ -325,6 +452,11 @@ fn read_header(b: &[u8]) -> Option<((u64, u64), bool)> {
             plain = false;
         }
         let tok = std::str::from_utf8(&b[s..i]).ok()?;
+        if !tok.bytes().all(|c| c.is_ascii_digit()) {
+            // "+5" and the like: whether a sign is accepted is the decoder's
+            // business; this reader only vouches for plain digit strings
+            plain = false;
+        }
         nums.push(tok.parse::<u64>().ok()?);
     }
     Some(((nums[0], nums[1]), plain))
@@ -447,5 +579,11 @@ pub fn run(cfg: &Cfg, rep: &mut Report) {
     rep.floor("reader_faults.injected_eintr", 100_000);
     rep.floor("reader_faults.hard_failure_midstream", 100_000);
     rep.floor("file_roundtrip.save_load_compared", 1_000);
+    rep.floor("roundtrip.larger_than_io_buffers", 200);
+    rep.floor("roundtrip.encoded_stream_checked_by_reference_reader", 30_000);
+    rep.floor("writer_faults.injected_eintr", 10_000);
+    for f in ["&Buf2", "Buf2::slice", "Buf2 by value", "MutSlice2 (slice_mut)", "Slice2::new with stride and surplus tail", "slice of a slice", "as_slice2()"] {
+        rep.floor(&format!("roundtrip.form.{f}"), 2_000);
+    }
     let _: Option<Color3> = None;
 }
